@@ -166,28 +166,70 @@ def writer_directive_gates(path):
 
 
 def tok_to_num_facts(path):
-    """which literal rules _GD_TokToNum has: (accepts strtod underflow, integer zero left to strtod)"""
+    """literal rules of _GD_TokToNum:
+       erange rule: 0 = a strtod result flagged ERANGE is rejected, 1 = accepted when small (underflow),
+                    2 = always accepted;
+       zero rule:   an integer zero is left to strtod when a floating value is wanted;
+       ull rule:    strtoull is only tried after a positive strtoll overflow"""
     src = strip_comments(open(path).read())
     m = re.search(r"int _GD_TokToNum\(.*?\n}\n", src, re.S)
     if not m:
         problems.append("PROBLEM _GD_TokToNum not found")
-        return False, False
+        return 0, False, False
     b = re.sub(r"\s+", " ", m.group(0))
-    uf_r = "errno == ERANGE && dr > -1 && dr < 1" in b
-    uf_i = "errno == ERANGE && di > -1 && di < 1" in b
-    if uf_r != uf_i:
-        problems.append("PROBLEM _GD_TokToNum: underflow rule present for only one of the two parts")
-    if "ERANGE" in b.replace("errno == ERANGE && dr > -1 && dr < 1", "").replace("errno == ERANGE && di > -1 && di < 1", "").replace("rt == GD_UNKNOWN && errno == ERANGE", "").replace("it == GD_UNKNOWN && errno == ERANGE", ""):
-        problems.append("PROBLEM _GD_TokToNum: unrecognised use of ERANGE")
+    shapes = {
+        1: ("(!errno || (errno == ERANGE && dr > -1 && dr < 1)) && (*endptr == '\\0' || *endptr == ';')",
+            "(!errno || (errno == ERANGE && di > -1 && di < 1)) && *endptr == '\\0'"),
+        2: ("(!errno || errno == ERANGE) && (*endptr == '\\0' || *endptr == ';')",
+            "(!errno || errno == ERANGE) && *endptr == '\\0'"),
+        0: ("dr = gd_strtod(token, &endptr); if (!errno && (*endptr == '\\0' || *endptr == ';'))",
+            "di = gd_strtod(token, &endptr); if (!errno && *endptr == '\\0')"),
+    }
+    rule = None
+    for k, (a, c) in shapes.items():
+        if a in b and c in b:
+            rule = k
+    if rule is None:
+        problems.append("PROBLEM _GD_TokToNum: acceptance test after strtod not recognised")
+        rule = 0
+    pu = ["if (rt == GD_UNKNOWN && errno == ERANGE && ir > 0)" in b, "if (it == GD_UNKNOWN && errno == ERANGE && ii > 0)" in b]
+    pu0 = ["if (rt == GD_UNKNOWN && errno == ERANGE) {" in b, "if (it == GD_UNKNOWN && errno == ERANGE) {" in b]
+    if not (all(pu) or all(pu0)):
+        problems.append("PROBLEM _GD_TokToNum: strtoull retry condition not recognised")
     z = ["(ir != 0 || !re)" in b, "(ii != 0 || !im)" in b, "if (it == GD_NULL) *im = di;" in b]
     if any(z) and not all(z):
         problems.append("PROBLEM _GD_TokToNum: zero rule only partly present")
-    # the shapes the reader model assumes
     for need in ("ir = gd_strtoll(token, &endptr, base);", "ur = gd_strtoull(token, &endptr, base);", "dr = gd_strtod(token, &endptr);",
                  "ii = gd_strtoll(token, &endptr, base);", "di = gd_strtod(token, &endptr);"):
         if need not in b:
             problems.append("PROBLEM _GD_TokToNum: expected statement missing: " + need)
-    return (uf_r and uf_i), all(z)
+    return rule, all(z), all(pu)
+
+
+def include_facts(flush_path, parse_path, include_path):
+    """(blank between namespace and prefix in WriteInclude, _GD_FindVersion has a namespace rule,
+        _GD_InputCode tells _GD_BuildCode that .z is a representation suffix, parser gate of namespaces)"""
+    fl = re.sub(r"\s+", " ", strip_comments(open(flush_path).read()))
+    pa = re.sub(r"\s+", " ", strip_comments(open(parse_path).read()))
+    inc = re.sub(r"\s+", " ", strip_comments(open(include_path).read()))
+    m = re.search(r"static int WriteInclude\(.*?return 1; }", fl)
+    if not m:
+        problems.append("PROBLEM WriteInclude not found")
+        return False, False, False, 0
+    w = m.group(0)
+    blank = "if (px || (sx && !ns)) { if (fputc(' ', stream) == EOF ||" in w
+    if not blank and "if (px || (sx && !ns)) { if (_GD_StringEscapeise(stream, px," not in w:
+        problems.append("PROBLEM WriteInclude: prefix block not recognised")
+    m = re.search(r"uint64_t _GD_FindVersion\(DIRFILE \*D\).*?D->flags \|= GD_HAVE_VERSION;", fl)
+    nsrule = bool(m and re.search(r"if \(D->fragment\[i\]\.nsl\) D->av &= GD_VERS_GE_10;", m.group(0)))
+    m = re.search(r"static char \*_GD_InputCode\(.*?return code; }", pa)
+    if not m:
+        problems.append("PROBLEM _GD_InputCode not found")
+    reprz = bool(m and "GD_CO_REPRZ" in m.group(0))
+    g = re.search(r"now the namespace \*/\s*if \(GD_PVERS_GE\(\*p, (\d+)\)\)", open(include_path).read())
+    if not g:
+        problems.append("PROBLEM namespace gate of _GD_SetFieldAffixes not found")
+    return blank, nsrule, reprz, (int(g.group(1)) if g else 0)
 
 
 def coq_str(s):
@@ -228,11 +270,24 @@ def main():
     lines.append("(* true when _GD_FindVersion applies the per-type version rule only to entries that are not hidden *)")
     lines.append("Definition hidden_skips_type_rule : bool := %s." % ("true" if hidden_skips else "false"))
     lines.append("")
-    uf, zf = tok_to_num_facts(os.path.join(REPO, "src", "parse.c"))
-    lines.append("(* _GD_TokToNum accepts a strtod result flagged ERANGE when it is small (underflow to a subnormal) *)")
-    lines.append("Definition tok_accepts_underflow : bool := %s." % ("true" if uf else "false"))
+    blank, nsrule, reprz, nsgate = include_facts(os.path.join(REPO, "src", "flush.c"), os.path.join(REPO, "src", "parse.c"),
+                                                 os.path.join(REPO, "src", "include.c"))
+    lines.append("(* WriteInclude puts a blank between the namespace and the prefix of an /INCLUDE line *)")
+    lines.append("Definition include_ns_px_blank : bool := %s." % ("true" if blank else "false"))
+    lines.append("(* _GD_FindVersion restricts a database with a fragment namespace to Standards Version >= 10 *)")
+    lines.append("Definition findversion_ns_rule : bool := %s." % ("true" if nsrule else "false"))
+    lines.append("(* _GD_InputCode lets _GD_BuildCode treat .z as a representation suffix (DSV >= 10) *)")
+    lines.append("Definition inputcode_reprz : bool := %s." % ("true" if reprz else "false"))
+    lines.append("(* Standards Version from which the parser reads a namespace in an /INCLUDE line *)")
+    lines.append("Definition parser_namespace_gate : Z := %d." % nsgate)
+    lines.append("")
+    uf, zf, pu = tok_to_num_facts(os.path.join(REPO, "src", "parse.c"))
+    lines.append("(* _GD_TokToNum and a strtod result flagged ERANGE: 0 = rejected, 1 = accepted when small (underflow), 2 = accepted *)")
+    lines.append("Definition tok_erange_rule : Z := %d." % uf)
     lines.append("(* _GD_TokToNum leaves an integer zero to strtod when a floating-point value is wanted (keeps the sign of -0) *)")
     lines.append("Definition tok_zero_via_strtod : bool := %s." % ("true" if zf else "false"))
+    lines.append("(* _GD_TokToNum tries strtoull only after a positive strtoll overflow *)")
+    lines.append("Definition tok_ull_positive_only : bool := %s." % ("true" if pu else "false"))
     lines.append("")
     table("parser_directive_gate", dirs, "directive -> GD_PVERS_GE gate in _GD_ParseDirective")
     os.makedirs(os.path.dirname(OUT), exist_ok=True)
@@ -242,7 +297,8 @@ def main():
         open(OUT, "w").write(txt)
     wc = [d for f, fn, ln, cv, d in fs if fn == "_GD_WriteConst"]
     print("HIDDEN_SKIPS %d" % (1 if hidden_skips else 0))
-    print("TOK_UNDERFLOW %d TOK_ZERO %d" % (1 if uf else 0, 1 if zf else 0))
+    print("TOK_ERANGE %d TOK_ZERO %d TOK_ULLPOS %d" % (uf, 1 if zf else 0, 1 if pu else 0))
+    print("INC_BLANK %d NS_RULE %d REPRZ %d" % (1 if blank else 0, 1 if nsrule else 0, 1 if reprz else 0))
     print("FLUSH_DIGITS %d" % (min(wc) if wc else (min(d for *_, d in fs) if fs else 0)))
     print("flush sites: %d  ascii sites: %d  writer_min_version: %d  parser_gate: %d" % (len(fs), len(asc), len(wmin), len(gates)))
     for p in problems:
